@@ -180,42 +180,7 @@ func (p *Prog) contexts() *ctxInfo {
 		}
 		return nil
 	}
-	// closures a variable may hold: follows loads of cells and captured cells
-	var closuresOf func(v ssa.Value, depth int) []*ssa.Function
-	closuresOf = func(v ssa.Value, depth int) []*ssa.Function {
-		if depth > 6 {
-			return nil
-		}
-		if cf := closureArg(v); cf != nil {
-			return []*ssa.Function{cf}
-		}
-		var out []*ssa.Function
-		fromCell := func(cell ssa.Value) {
-			switch a := cell.(type) {
-			case *ssa.Alloc:
-				for _, r := range *a.Referrers() {
-					if st, ok := r.(*ssa.Store); ok && st.Addr == ssa.Value(a) {
-						out = append(out, closuresOf(st.Val, depth+1)...)
-					}
-				}
-			case *ssa.FreeVar:
-				if mc := p.parent[a.Parent()]; mc != nil {
-					for i, fv := range a.Parent().FreeVars {
-						if fv == a {
-							out = append(out, closuresOf(mc.Bindings[i], depth+1)...)
-						}
-					}
-				}
-			}
-		}
-		switch x := v.(type) {
-		case *ssa.UnOp:
-			fromCell(x.X)
-		case *ssa.Alloc, *ssa.FreeVar:
-			fromCell(x)
-		}
-		return out
-	}
+	closuresOf := func(v ssa.Value, depth int) []*ssa.Function { return p.closuresHeld(v, depth) }
 	for changed := true; changed; {
 		changed = false
 		for _, f := range p.Repo {
@@ -247,6 +212,21 @@ func (p *Prog) contexts() *ctxInfo {
 								if add(cf, c, "passed to "+callee.Name()+" in "+fnName(f)) {
 									changed = true
 								}
+							}
+						}
+					}
+				}
+				// closures handed to a repository function that is not in the table: they run wherever that
+				// function (or a closure inside it) invokes the parameter
+				if sf := com.StaticCallee(); sf != nil && p.isRepoFn(sf) && (callee == nil || rules[callee] == nil) {
+					for ai, a := range com.Args {
+						cf := closureArg(a)
+						if cf == nil || !p.isRepoFn(cf) || ai >= len(sf.Params) {
+							continue
+						}
+						for _, g := range invokers(sf, sf.Params[ai]) {
+							if add(cf, ci.ctx[g], "passed to "+fnName(sf)+" which invokes it in "+fnName(g)) {
+								changed = true
 							}
 						}
 					}
@@ -743,4 +723,93 @@ func lockName(s int) string {
 		return "held"
 	}
 	return "unknown"
+}
+
+
+// invokers returns the functions (fn or closures nested in it) that call the
+// function-typed parameter prm of fn, following captures.
+func invokers(fn *ssa.Function, prm *ssa.Parameter) []*ssa.Function {
+	holders := map[ssa.Value]bool{prm: true}
+	for changed := true; changed; {
+		changed = false
+		for _, g := range WithClosures(fn) {
+			for _, in := range instrsOf(g) {
+				switch x := in.(type) {
+				case *ssa.Store:
+					if holders[x.Val] && !holders[x.Addr] {
+						if _, ok := x.Addr.(*ssa.Alloc); ok {
+							holders[x.Addr] = true
+							changed = true
+						}
+					}
+				case *ssa.MakeClosure:
+					cf := x.Fn.(*ssa.Function)
+					for i, b := range x.Bindings {
+						if holders[b] && i < len(cf.FreeVars) && !holders[cf.FreeVars[i]] {
+							holders[cf.FreeVars[i]] = true
+							changed = true
+						}
+					}
+				}
+			}
+		}
+	}
+	var out []*ssa.Function
+	for _, g := range WithClosures(fn) {
+		for _, call := range callsIn(g) {
+			v := call.Common().Value
+			if call.Common().IsInvoke() || call.Common().StaticCallee() != nil {
+				continue
+			}
+			hit := holders[v]
+			if u, ok := v.(*ssa.UnOp); ok && holders[u.X] {
+				hit = true
+			}
+			if hit {
+				out = append(out, g)
+			}
+		}
+	}
+	return out
+}
+
+
+// closuresHeld returns the closures (or functions) a value may hold,
+// following loads of local cells and of cells captured by nested closures.
+func (p *Prog) closuresHeld(v ssa.Value, depth int) []*ssa.Function {
+	if depth > 6 {
+		return nil
+	}
+	switch x := stripConv(v).(type) {
+	case *ssa.MakeClosure:
+		return []*ssa.Function{x.Fn.(*ssa.Function)}
+	case *ssa.Function:
+		return []*ssa.Function{x}
+	}
+	var out []*ssa.Function
+	fromCell := func(cell ssa.Value) {
+		switch a := cell.(type) {
+		case *ssa.Alloc:
+			for _, r := range *a.Referrers() {
+				if st, ok := r.(*ssa.Store); ok && st.Addr == ssa.Value(a) {
+					out = append(out, p.closuresHeld(st.Val, depth+1)...)
+				}
+			}
+		case *ssa.FreeVar:
+			if mc := p.parent[a.Parent()]; mc != nil {
+				for i, fv := range a.Parent().FreeVars {
+					if fv == a {
+						out = append(out, p.closuresHeld(mc.Bindings[i], depth+1)...)
+					}
+				}
+			}
+		}
+	}
+	switch x := v.(type) {
+	case *ssa.UnOp:
+		fromCell(x.X)
+	case *ssa.Alloc, *ssa.FreeVar:
+		fromCell(x)
+	}
+	return out
 }
